@@ -436,6 +436,15 @@ class ProducerLayout:
             return [ ( (( 'V', 'raw', None, (( 'len', 'slice' ), )), ), {} ) ]		# a slice of locally assembled bytes
         if isinstance( e, ast.BinOp ) and isinstance( e.op, ast.Mult ) and isinstance( try_fold( e.left ), bytes ):
             return [ ( (( 'V', 'fill', None, () ), ), {} ) ]				# a computed run of fill octets (part of the preceding field)
+        # text in a field of constant width: <text>.encode( .. ).ljust( N, b'\0' ) / struct.pack( 'Ns', <text>.encode( .. ))
+        def enc_path_( x ):
+            return self.datapath( x.func.value, alias ) if isinstance( x, ast.Call ) and isinstance( x.func, ast.Attribute ) and x.func.attr == 'encode' else None
+        if isinstance( e, ast.Call ) and isinstance( e.func, ast.Attribute ) and e.func.attr == 'ljust' and len( e.args ) == 2 \
+           and isinstance( try_fold( e.args[0] ), int ) and try_fold( e.args[1] ) == b'\0' and enc_path_( e.func.value ) is not None:
+            return [ ( (( 'V', 'raw', enc_path_( e.func.value ), (( 'len', try_fold( e.args[0] )), )), ), {} ) ]
+        if isinstance( e, ast.Call ) and call_name( e ) == 'struct.pack' and len( e.args ) == 2 and isinstance( try_fold( e.args[0] ), str ) \
+           and try_fold( e.args[0] ).lstrip( '<>=!@' ).endswith( 's' ) and try_fold( e.args[0] ).lstrip( '<>=!@' )[:-1].isdigit() and enc_path_( e.args[1] ) is not None:
+            return [ ( (( 'V', 'raw', enc_path_( e.args[1] ), (( 'len', int( try_fold( e.args[0] ).lstrip( '<>=!@' )[:-1] )), )), ), {} ) ]
         if isinstance( e, ast.Call ) and isinstance( e.func, ast.Attribute ) and e.func.attr == 'encode' and self.datapath( e.func.value, alias ) is not None:
             return [ ( (( 'V', 'raw', self.datapath( e.func.value, alias ), (( 'len', 'to-end' ), )), ), {} ) ]
         if isinstance( e, ast.Name ) or isinstance( e, ast.Attribute ):
